@@ -35,3 +35,318 @@ pub fn vector_facts(db: &Db, dim: usize, k: usize) -> Facts {
     }
     f
 }
+
+// ---------------------------------------------------------------------------------------------
+// C31 monitor
+// ---------------------------------------------------------------------------------------------
+
+use crate::common::report::{Args, CaseOut, Report, Violation, par_cases, threads};
+use crate::common::rng::Rng;
+use crate::common::sut::ScratchDir;
+use serde_json::json;
+use std::collections::{BTreeMap, BTreeSet};
+use std::time::{Duration, Instant};
+
+#[derive(Clone, Debug)]
+enum VOp {
+    /// create a node and give it a vector
+    Add(Vec<f32>),
+    /// overwrite the vector of an existing live node (index into the list of live vector nodes)
+    Reinsert(usize, Vec<f32>),
+    /// delete a node that has a vector
+    Delete(usize),
+    Reopen,
+    Compact,
+    Search(Vec<f32>, usize),
+}
+
+fn vop_json(op: &VOp) -> serde_json::Value {
+    match op {
+        VOp::Add(v) => json!({"op":"create-node+set_vector","vec":v}),
+        VOp::Reinsert(i, v) => json!({"op":"set_vector-again","nth_live_vector_node":i,"vec":v}),
+        VOp::Delete(i) => json!({"op":"delete-node","nth_live_vector_node":i}),
+        VOp::Reopen => json!({"op":"reopen"}),
+        VOp::Compact => json!({"op":"compact"}),
+        VOp::Search(q, k) => json!({"op":"search","query":q,"k":k}),
+    }
+}
+
+fn gen_vec(rng: &mut Rng, dim: usize, pool: &[f32]) -> Vec<f32> {
+    (0..dim).map(|_| *rng.pick(pool)).collect()
+}
+
+fn gen_vcase(seed: u64, k: usize, small: bool) -> (usize, Vec<VOp>) {
+    let mut rng = Rng::derive(seed, k as u64);
+    let dim = 1 + rng.below(8);
+    // a small coordinate pool produces ties and duplicates
+    let pool: Vec<f32> = if k % 3 == 0 { vec![0.0, 1.0, -1.0, 0.5] } else { vec![0.0, 1.0, -1.0, 0.5, 2.0, -3.5, 10.0, 0.25, 100.0, -0.125, 7.0, 1e-3] };
+    let n_ops = if small { 6 + rng.below(14) } else { 20 + rng.below(60) };
+    let mut live = 0usize;
+    let mut ops = Vec::new();
+    let mut stored: Vec<Vec<f32>> = Vec::new();
+    for _ in 0..n_ops {
+        let w = rng.weighted(&[40, if live > 0 { 12 } else { 0 }, if live > 1 { 6 } else { 0 }, 6, 4, 30]);
+        match w {
+            0 => {
+                let v = gen_vec(&mut rng, dim, &pool);
+                stored.push(v.clone());
+                live += 1;
+                ops.push(VOp::Add(v));
+            }
+            1 => {
+                let v = gen_vec(&mut rng, dim, &pool);
+                stored.push(v.clone());
+                ops.push(VOp::Reinsert(rng.below(live), v));
+            }
+            2 => {
+                ops.push(VOp::Delete(rng.below(live)));
+                live -= 1;
+            }
+            3 => ops.push(VOp::Reopen),
+            4 => ops.push(VOp::Compact),
+            _ => {
+                // query at a stored point, a midpoint of two stored points, or far away
+                let q = match rng.below(3) {
+                    0 if !stored.is_empty() => stored[rng.below(stored.len())].clone(),
+                    1 if stored.len() > 1 => {
+                        let (a, b) = (&stored[rng.below(stored.len())], &stored[rng.below(stored.len())]);
+                        a.iter().zip(b).map(|(x, y)| (x + y) / 2.0).collect()
+                    }
+                    _ => gen_vec(&mut rng, dim, &[1000.0, -1000.0, 0.0, 3.0]),
+                };
+                ops.push(VOp::Search(q, *rng.pick(&[1usize, 2, 3, 5, 10, 50])));
+            }
+        }
+    }
+    // always end with searches before and after a reopen
+    let q = gen_vec(&mut rng, dim, &pool);
+    ops.push(VOp::Search(q.clone(), 10));
+    ops.push(VOp::Reopen);
+    ops.push(VOp::Search(q, 10));
+    (dim, ops)
+}
+
+fn euclid(a: &[f32], b: &[f32]) -> f64 {
+    a.iter().zip(b).map(|(x, y)| ((*x as f64) - (*y as f64)).powi(2)).sum::<f64>().sqrt()
+}
+
+fn close(a: f64, b: f64) -> bool {
+    (a - b).abs() <= 1e-4 * a.abs().max(b.abs()) + 1e-5
+}
+
+struct VViol {
+    kind: String,
+    what: String,
+    step: usize,
+}
+
+/// Executes the case; returns the first oracle failure.
+fn run_vcase(dim: usize, ops: &[VOp], m_param: usize, out: &mut CaseOut) -> Result<Option<VViol>, String> {
+    let mut soft: Option<VViol> = None;
+    let r = run_vcase_inner(dim, ops, m_param, out, &mut soft)?;
+    // a hard failure is reported first; the soft one (deleted node returned) only if nothing else failed
+    Ok(r.or(soft))
+}
+
+/// `soft`: first observation of a deleted node in a result. It is recorded and the case goes on
+/// (the remaining oracles then treat the deleted node's last vector as stored), so that histories
+/// with deletions still exercise the other oracles.
+fn run_vcase_inner(dim: usize, ops: &[VOp], m_param: usize, out: &mut CaseOut, soft: &mut Option<VViol>) -> Result<Option<VViol>, String> {
+    let _ = dim;
+    let mut ghosts: BTreeMap<u32, Vec<f32>> = BTreeMap::new(); // deleted nodes' last vectors
+    let dir = ScratchDir::new("c31");
+    let mut db = Some(Db::open(dir.db_base()).map_err(|e| e.to_string())?);
+    // model
+    let mut vectors: BTreeMap<u32, Vec<f32>> = BTreeMap::new(); // live nodes with a vector
+    let mut ever: BTreeSet<u32> = BTreeSet::new(); // nodes the index ever received a vector for
+    let mut next_ext = 1u64;
+    // searches repeated after the next reopen: (query, k, sorted distances before)
+    let mut pending: Vec<(Vec<f32>, usize, Vec<f64>)> = Vec::new();
+    let es = |e: ndb_core::Error| e.to_string();
+    for (step, op) in ops.iter().enumerate() {
+        let d = db.as_ref().unwrap();
+        match op {
+            VOp::Add(v) => {
+                let mut txn = d.begin_write();
+                let l = txn.get_or_create_label("V").map_err(es)?;
+                let id = txn.create_node(next_ext, l).map_err(es)?;
+                next_ext += 1;
+                txn.set_vector(id, v.clone()).map_err(es)?;
+                txn.commit().map_err(es)?;
+                vectors.insert(id, v.clone());
+                ever.insert(id);
+                out.count("vector_inserts", 1);
+                pending.clear(); // a new vector legitimately changes later results
+            }
+            VOp::Reinsert(i, v) => {
+                let id = *vectors.keys().nth(*i).ok_or("ill-formed case")?;
+                let mut txn = d.begin_write();
+                txn.set_vector(id, v.clone()).map_err(es)?;
+                txn.commit().map_err(es)?;
+                vectors.insert(id, v.clone());
+                out.count("vector_reinserts", 1);
+                pending.clear(); // distances legitimately change
+            }
+            VOp::Delete(i) => {
+                let id = *vectors.keys().nth(*i).ok_or("ill-formed case")?;
+                let mut txn = d.begin_write();
+                txn.tombstone_node(id);
+                txn.commit().map_err(es)?;
+                if let Some(v) = vectors.remove(&id) {
+                    ghosts.insert(id, v);
+                }
+                out.count("vector_node_deletes", 1);
+                pending.clear();
+            }
+            VOp::Compact => d.compact().map_err(es)?,
+            VOp::Reopen => {
+                drop(db.take());
+                db = Some(Db::open(dir.db_base()).map_err(|e| format!("reopen: {e}"))?);
+                let d = db.as_ref().unwrap();
+                for (q, k, before) in pending.drain(..) {
+                    let hits = d.search_vector(&q, k).map_err(es)?;
+                    let mut after: Vec<f64> = hits.iter().map(|h| h.1 as f64).collect();
+                    after.sort_by(|a, b| a.total_cmp(b));
+                    out.count("searches_repeated_after_reopen", 1);
+                    if after.len() != before.len() || after.iter().zip(&before).any(|(a, b)| !close(*a, *b)) {
+                        return Ok(Some(VViol { kind: "result-changed-by-reopen".into(), what: format!("search {q:?} k={k}: distances before reopen {before:?}, after {after:?}"), step }));
+                    }
+                }
+            }
+            VOp::Search(q, k) => {
+                let hits = match catch_unwind(AssertUnwindSafe(|| d.search_vector(q, *k))) {
+                    Ok(Ok(h)) => h,
+                    Ok(Err(e)) => return Ok(Some(VViol { kind: "search-failed".into(), what: format!("search returned an error: {e}"), step })),
+                    Err(_) => return Ok(Some(VViol { kind: "search-panicked".into(), what: "search panicked".into(), step })),
+                };
+                out.evaluations += 1;
+                out.count("searches", 1);
+                let few = ever.len() <= 2 * m_param + 1;
+                if few {
+                    out.count("searches_on_few_vectors", 1);
+                }
+                if hits.len() > *k {
+                    return Ok(Some(VViol { kind: "more-than-k-results".into(), what: format!("k={k}, got {}", hits.len()), step }));
+                }
+                let ids: BTreeSet<u32> = hits.iter().map(|h| h.0).collect();
+                if ids.len() != hits.len() {
+                    return Ok(Some(VViol { kind: "node-repeated".into(), what: format!("result lists a node twice: {hits:?}"), step }));
+                }
+                let mut ghost_seen = false;
+                for (id, _) in &hits {
+                    if !vectors.contains_key(id) {
+                        if ghosts.contains_key(id) {
+                            ghost_seen = true;
+                            if soft.is_none() {
+                                *soft = Some(VViol { kind: "deleted-node-returned".into(), what: format!("node {id} was deleted but is in the result: {hits:?}"), step });
+                            }
+                            continue;
+                        }
+                        return Ok(Some(VViol { kind: "node-without-vector-returned".into(), what: format!("node {id} is in the result but never had a vector: {hits:?}"), step }));
+                    }
+                }
+                for w in hits.windows(2) {
+                    if w[0].1 > w[1].1 {
+                        return Ok(Some(VViol { kind: "distances-not-sorted".into(), what: format!("{hits:?}"), step }));
+                    }
+                }
+                for (id, dist) in &hits {
+                    let want = euclid(q, vectors.get(id).or_else(|| ghosts.get(id)).unwrap());
+                    if !close(*dist as f64, want) {
+                        return Ok(Some(VViol { kind: "wrong-distance".into(), what: format!("node {id}: reported {dist}, Euclidean distance to its current vector is {want}"), step }));
+                    }
+                }
+                if few && !ghost_seen && ghosts.is_empty() {
+                    let mut brute: Vec<f64> = vectors.values().map(|v| euclid(q, v)).collect();
+                    brute.sort_by(|a, b| a.total_cmp(b));
+                    brute.truncate(*k);
+                    let got: Vec<f64> = hits.iter().map(|h| h.1 as f64).collect();
+                    if got.len() != brute.len() || got.iter().zip(&brute).any(|(a, b)| !close(*a, *b)) {
+                        return Ok(Some(VViol { kind: "not-the-k-nearest-on-few-vectors".into(), what: format!("index holds {} vectors (m={m_param}); expected distances {brute:?}, got {got:?}", ever.len()), step }));
+                    }
+                }
+                let mut sorted: Vec<f64> = hits.iter().map(|h| h.1 as f64).collect();
+                sorted.sort_by(|a, b| a.total_cmp(b));
+                pending.push((q.clone(), *k, sorted));
+            }
+        }
+    }
+    Ok(None)
+}
+
+pub fn main(args: &Args) -> Report {
+    let mut rep = Report::new(
+        "C31",
+        &args.tier,
+        args.seed,
+        "exploration",
+        "generated sequences of vector inserts (dimension 1-8, coordinate pools with ties and duplicates), re-inserts for the same node, node deletions, compaction, reopen and searches (at stored points, midpoints, far away; k in 1..50) with NERVUSDB_HNSW_M=4 and with the default; every result is checked online: at most k, distinct, only live nodes with a stored vector, non-decreasing, each distance equal to the Euclidean distance to the node's current vector, exactly the k nearest while the index holds at most 2m+1 vectors, and unchanged by reopen. A cell is (m, dimension, operation kinds present)",
+    );
+    rep.assume("HNSW level choice is random (thread_rng): every violating case is re-executed 5 times and the reproduction count is part of the witness");
+    rep.assume("distances are compared with relative tolerance 1e-4 (f32 arithmetic in the engine, f64 in the oracle)");
+    let thorough = args.thorough();
+    let mut total = CaseOut::default();
+    for (phase, m_param) in [(0u64, 4usize), (1, 16)] {
+        // the parameter is read from the environment when a database is opened
+        unsafe {
+            if m_param == 4 {
+                std::env::set_var("NERVUSDB_HNSW_M", "4");
+            } else {
+                std::env::remove_var("NERVUSDB_HNSW_M");
+            }
+        }
+        let n = if thorough { 6000 } else { 400 };
+        let deadline = Instant::now() + Duration::from_secs(args.budget_s(60, 600));
+        let seed = args.seed ^ (phase << 40);
+        let (out, _) = par_cases(n, threads(), Some(deadline), |k| {
+            let mut out = CaseOut::default();
+            let small = k % 2 == 0;
+            let (dim, ops) = gen_vcase(seed, k, small);
+            let kinds: BTreeSet<&str> = ops.iter().map(|o| match o { VOp::Add(_) => "add", VOp::Reinsert(..) => "reinsert", VOp::Delete(_) => "delete", VOp::Reopen => "reopen", VOp::Compact => "compact", VOp::Search(..) => "search" }).collect();
+            out.cell(format!("m={m_param}:dim={dim}:{}", kinds.into_iter().collect::<Vec<_>>().join("+")));
+            match run_vcase(dim, &ops, m_param, &mut out) {
+                Err(e) => out.inconclusive(&format!("step-failed:{}", crate::storemon::normalise_msg(&e))),
+                Ok(None) => {}
+                Ok(Some(v)) => {
+                    // shrink: drop operations from the end (prefix up to the failing step), then re-run
+                    let prefix = &ops[..=v.step.min(ops.len() - 1)];
+                    let mut repro = 0;
+                    let mut scratch = CaseOut::default();
+                    for _ in 0..5 {
+                        if let Ok(Some(v2)) = run_vcase(dim, prefix, m_param, &mut scratch)
+                            && v2.kind == v.kind
+                        {
+                            repro += 1;
+                        }
+                    }
+                    let has = |f: fn(&VOp) -> bool| prefix.iter().any(f);
+                    let ctx = format!(
+                        "m={m_param}{}{}",
+                        if has(|o| matches!(o, VOp::Reinsert(..))) { ",after-reinsert" } else { "" },
+                        if has(|o| matches!(o, VOp::Delete(_))) { ",after-node-delete" } else { "" }
+                    );
+                    out.violations.push(Violation {
+                        signature: format!("C31|{}|{ctx}", v.kind),
+                        summary: v.what.clone(),
+                        detail: json!({"dimension": dim, "m": m_param, "operations": prefix.iter().map(vop_json).collect::<Vec<_>>(), "failing_step": v.step, "reproduced": format!("{repro}/5")}),
+                        replay: json!({"engine":"storemon","property":"C31","seed":seed,"case":k,"m":m_param}),
+                    });
+                }
+            }
+            if k < 2 {
+                out.samples.push(json!({"m": m_param, "dimension": dim, "operations": ops.iter().take(12).map(vop_json).collect::<Vec<_>>()}));
+            }
+            out
+        });
+        total.merge(out);
+    }
+    unsafe {
+        std::env::remove_var("NERVUSDB_HNSW_M");
+    }
+    rep.out = total;
+    rep.floor("searches", rep.counter("searches"), if thorough { 20_000 } else { 2000 });
+    rep.floor("searches while the index holds <= 2m+1 vectors", rep.counter("searches_on_few_vectors"), if thorough { 5000 } else { 500 });
+    rep.floor("searches repeated after reopen", rep.counter("searches_repeated_after_reopen"), if thorough { 3000 } else { 300 });
+    rep.floor("re-insertions", rep.counter("vector_reinserts"), if thorough { 3000 } else { 300 });
+    rep
+}
